@@ -180,7 +180,11 @@ func (h *cbHandler) onGraphEnd(ctx context.Context,
 }
 
 func (h *cbHandler) onGraphEndWithStreamOutput(ctx context.Context,
-	_ *callbacks.RunInfo, _ *schema.StreamReader[callbacks.CallbackOutput]) context.Context {
+	_ *callbacks.RunInfo, output *schema.StreamReader[callbacks.CallbackOutput]) context.Context {
+
+	// this handler's copy of the answer stream is not used: an unclosed copy keeps the source open after every
+	// other reader is gone
+	output.Close()
 
 	h.sMsgs.Close()
 
@@ -198,7 +202,9 @@ func (h *cbHandler) onGraphStart(ctx context.Context,
 }
 
 func (h *cbHandler) onGraphStartWithStreamInput(ctx context.Context, _ *callbacks.RunInfo,
-	_ *schema.StreamReader[callbacks.CallbackInput]) context.Context {
+	input *schema.StreamReader[callbacks.CallbackInput]) context.Context {
+
+	input.Close() // this handler's copy of the input stream is not used
 
 	h.sMsgs = internal.NewUnboundedChan[item[*schema.StreamReader[*schema.Message]]]()
 
